@@ -749,7 +749,8 @@ func (w *world) checkProgress(e *sim.Env, quiet bool) {
 	rec, ok := w.be.Peek(lockKey)
 	state := "lock record absent"
 	if ok {
-		state = fmt.Sprintf("lock record present (version %s)", short(rec.Version))
+		_ = rec
+		state = "lock record present"
 	}
 	e.Violate("C04", "lost_handoff", "nobody holds the lock, yet %v stay(s) blocked in an acquisition with a live context for %v of simulated time; %s; goroutines: %s", blocked, time.Since(e.LastProgress), state, strings.Join(e.RT.All(), "; "))
 }
@@ -837,7 +838,8 @@ func (w *world) Finished(e *sim.Env) bool {
 			}
 			if len(w.inside) == 0 && len(w.curTen) == 0 {
 				if rec, ok := w.be.PeekLive(lockKey); ok {
-					e.Violate("C05", "record_alive_after_unlock", "every holder unlocked at least %v ago but a live lock record (version %s) is still in the storage", 3*w.lease, short(rec.Version))
+					_ = rec
+					e.Violate("C05", "record_alive_after_unlock", "every holder unlocked at least %v ago but a live lock record is still in the storage", 3*w.lease)
 				}
 			}
 		}
@@ -854,7 +856,8 @@ func (w *world) residue() {
 		return
 	}
 	if rec, ok := w.be.PeekLive(lockKey); ok {
-		e.Violate("C04", "residue_record", "every holder has unlocked but the lock record is still present (version %s)", short(rec.Version))
+		_ = rec
+		e.Violate("C04", "residue_record", "every holder has unlocked but the lock record is still present")
 		return
 	}
 	for i, lk := range w.lockers {
